@@ -875,6 +875,44 @@ impl Check for ClientCheck {
         match self.id {
             "C07" => {
                 fams.push(Family::new("reply_packets_in_unusual_order", UNUSUAL_ORDER_N, true, |i, _| unusual_order_plan(i)));
+                // tokens of every length 0..=300 (the requests that carry them cross the 127/128 and 254/255
+                // length switches at different token lengths): begin, then commit or cancel
+                fams.push(Family::new("token_of_every_length", 301 * 2, true, |i, _| {
+                    let len = (i / 2) as usize;
+                    let tok: String = (0..len).map(|k| (b'a' + (k % 26) as u8) as char).collect();
+                    let mut p = ClientPlan::plain(vec![
+                        OpSpec::Begin { token: tok.clone(), res: ResOutcome::success() },
+                        if i % 2 == 0 {
+                            OpSpec::Commit { token: tok.clone(), amount: 700, rev: RevOutcome::success(), cleanup: CleanupSpec::plain() }
+                        } else {
+                            OpSpec::Cancel { token: tok.clone(), rev: RevOutcome::success(), cleanup: CleanupSpec::plain() }
+                        },
+                        OpSpec::Begin { token: tok, res: ResOutcome::success() },
+                    ]);
+                    p.cfg.max_tx = 1;
+                    p
+                }));
+                // status informations beyond 254 bytes (extended APDU header) arriving byte by byte and in
+                // PRNG pieces: one reservation, one receipt
+                fams.push(Family::new("long_status_informations_in_pieces", 4 * 8 * 2, true, |i, rng| {
+                    let text = [230u16, 252, 300, 999][(i % 4) as usize];
+                    let mut p = ClientPlan::plain(vec![
+                        OpSpec::Begin { token: "A".into(), res: ResOutcome { pre: 1, status: if i / 32 == 0 { StatusMode::WithReceipt } else { StatusMode::WithReceiptTwice }, prints: 1, end: EndSpec::Completion } },
+                        OpSpec::Commit { token: "A".into(), amount: 100, rev: RevOutcome { pre: 0, status: true, prints: 0, end: EndSpec::Completion }, cleanup: CleanupSpec::plain() },
+                    ]);
+                    p.pt.long_status_text = text;
+                    p.pt.rich_status = i % 8 >= 4;
+                    p.sched = match (i / 4) % 8 {
+                        0 => Sched::one_byte(),
+                        1 => Sched::whole(),
+                        k => {
+                            let mut s = Sched::random(rng);
+                            s.read_mode = crate::conn::ChunkMode::Random([1u16, 2, 3, 4, 5, 7][(k - 2) as usize]);
+                            s
+                        }
+                    };
+                    p
+                }));
                 let depth = match tier {
                     Tier::Quick => 3,
                     Tier::Thorough => 4,
@@ -1273,7 +1311,9 @@ impl Check for ClientCheck {
                         vec![b("A"), ca("A", cl(PendingSpec::Dangling))],
                         vec![b("A"), b("B"), co("B", cl(PendingSpec::NoneFfff)), ca("A", cl(PendingSpec::Dangling))],
                     ];
-                    fams.push(fault_at_every_point("connection_closed_between_exchanges_at_every_point", wl, vec![FaultKind::CloseIdle], 2));
+                    fams.push(fault_at_every_point("connection_closed_between_exchanges_at_every_point", wl.clone(), vec![FaultKind::CloseIdle], 2));
+                    // ... or answers one command with a negative acknowledgement (busy): same liveness
+                    fams.push(fault_at_every_point("command_refused_once_at_every_point", wl, vec![FaultKind::Nack(0x9c), FaultKind::Nack(0x83)], 2));
                 }
                 let depth = 3;
                 fams.push(Family::new(
